@@ -24,6 +24,9 @@ def result_case(draw, brokers, with_fault):
             j["result_ttl"] = draw(st.sampled_from(["unset", "unset", None, 1, 5, 3600]))
     if with_fault:
         case["fault_store_call"] = draw(st.integers(0, 5))
+    else:
+        # the producer reads Job.result on its Job object after every execution, not only once at the end
+        case["read_results_early"] = draw(st.booleans())
     return gen.finalize(case)
 
 
